@@ -7,6 +7,7 @@
 //   reduce <id> fn=add|AddInts|MaxG c=<writer> [zero=<n>]      reduce_(fn, collection [, zero]) -> TS<Int>
 //   switch <id> key=<writer> cases=<k:F,k:F> [default=<F>] [reload=1] x=<writer>   switch_(key, cases, x) -> TS<Int>
 //   ite <id> c=<writer TSBool> a=<writer> b=<writer>           if_then_else(c, a, b) -> shape of a
+//   fbk <id> src=<producer> [init=<json delta>]                feedback<S>(w[, initial delta]) bound to <producer>; <id> is the delayed port
 //   npass <id> <src>                                           nested_<pass-through>(src)
 //   nite <id> c= a= b=                                         if_then_else wired inside a nested graph, result passed out
 #include "collvocab.h"
@@ -318,6 +319,29 @@ namespace hv
                                 Port<S> b{w, src(st, "b")};
                                 if (k == "ite") ps.ref[id] = wire<stdlib::if_then_else>(w, c, a, b).template as<S>().erased();
                                 else ps.ref[id] = nested_<IteG<S>>(w, c, a, b).template as<S>().erased();
+                            }
+                        });
+                        ps.shape[id] = sh;
+                    }
+                    else if (k == "fbk")
+                    {   // a feedback edge of the producer's shape: reader port = <id>
+                        long long id        = std::stoll(st.tok.at(1));
+                        long long sid       = st.geti("src");
+                        const std::string sh = ps.shape.at(sid);
+                        with_ho_shape(sh, w, ps.ref.at(sid), [&](auto port) {
+                            using S = typename decltype(port)::schema;
+                            if (st.has("init"))
+                            {
+                                const auto *meta = schema_descriptor<S>::ts_meta();
+                                auto fb          = stdlib::feedback<S>(w, from_json_string(meta->delta_value_schema, st.get("init")));
+                                ps.ref[id]       = fb().erased();
+                                fb(port);
+                            }
+                            else
+                            {
+                                auto fb    = stdlib::feedback<S>(w);
+                                ps.ref[id] = fb().erased();
+                                fb(port);
                             }
                         });
                         ps.shape[id] = sh;
